@@ -480,7 +480,7 @@ BUFR_Tables *bufr_extract_tables( BUFR_Dataset *dts )
                bufr_copy_EntryTableB( e1, &eb );
                if (bufr_is_debug())
                   {
-                  sprintf( errmsg, _n("Extracted TableB %d : (%d bit) %s\n", 
+                  snprintf( errmsg, sizeof(errmsg), _n("Extracted TableB %d : (%d bit) %s\n", 
                                       "Extracted TableB %d : (%d bits) %s\n", e1->encoding.nbits), 
                            e1->descriptor, e1->encoding.nbits, e1->description );
                   bufr_print_debug( errmsg );
